@@ -136,6 +136,33 @@ impl Prop for C01 {
         v.push(Scope::new("quote-rows", "all rows over {\",\\,a,space,-,一}", move |f| {
             enumr::strings_upto(&['"', '\\', 'a', ' ', '-', '一'], ql, &mut |s| f(Case::s(s.iter().collect::<String>())))
         }));
+        let qs = if quick { 4 } else { 5 };
+        v.push(Scope::new("quote-rows-in-shapes", "all rows over {\",\\,a,space,{,}} placed inside a box, inside a rounded box, inside a circle, under a slash and next to text", move |f| {
+            let big_circle = shapes::catalog().get(12).cloned().unwrap_or_default();
+            enumr::strings_upto(&['"', '\\', 'a', ' ', '{', '}'], qs, &mut |s| {
+                let t: String = s.iter().collect();
+                if t.is_empty() {
+                    return;
+                }
+                f(Case::s(format!("+-------+\n| {:<6}|\n+-------+", t)));
+                f(Case::s(format!(".-------.\n|{:<7}|\n'-------'", t)));
+                f(Case::s(format!(" /\n/{}\nab{}cd", t, t)));
+                // the middle row of a large catalogue circle
+                let rows: Vec<&str> = big_circle.split('\n').collect();
+                if rows.len() > 2 {
+                    let mid = rows.len() / 2;
+                    let mut out: Vec<String> = rows.iter().map(|r| r.to_string()).collect();
+                    let mut row: Vec<char> = out[mid].chars().collect();
+                    for (i, ch) in t.chars().enumerate() {
+                        if 3 + i < row.len().saturating_sub(1) {
+                            row[3 + i] = ch;
+                        }
+                    }
+                    out[mid] = row.into_iter().collect();
+                    f(Case::s(out.join("\n")));
+                }
+            })
+        }));
         let ll = if quick { 4 } else { 5 };
         v.push(Scope::new("legend-strings", "a diagram line followed by every string over {#,L,e,g,n,d,:,space,=,{,},a,LF,CR}; also with the literal header prefixed", move |f| {
             let a = ['#', 'L', 'e', 'g', 'n', 'd', ':', ' ', '=', '{', '}', 'a', '\n', '\r'];
